@@ -212,7 +212,57 @@ def r12d(ctx):
     ctx.floor("R12d", n, 2, "delegating handlers of symbol-less sequence formatters")
 
 
+def r12e(ctx):
+    m = ctx.model
+    ctx.rule("R12e", "names survive the XML round trip: ElementTree hands out namespaced names in Clark notation (`{uri}local`) and "
+                     "drops the xmlns declarations; a loader that stores `element.tag` / the keys of `element.attrib` as they are, "
+                     "paired with a printer that writes names verbatim, prints `<{uri}a />` - which no XML parser accepts.  The "
+                     "loader must translate such names (or keep the prefixes) before they reach the tree")
+    f = m.functions.get("graphtage.xml.build_tree")
+    if f is None:
+        ctx.inconclusive("R12e", "graphtage/xml.py", "build_tree", None, "xml loader", "graphtage.xml.build_tree not found")
+        return
+    uses = [x for x in walk_no_nested(f.node) if isinstance(x, ast.Attribute) and x.attr in ("tag", "attrib") and isinstance(x.ctx, ast.Load)]
+    handles = any(isinstance(c, ast.Constant) and isinstance(c.value, str) and ("{" in c.value or "}" in c.value) for c in ast.walk(f.node)) \
+        or "start-ns" in ast.unparse(f.node) or "register_namespace" in ast.unparse(f.node)
+    ctx.floor("R12e", len(uses), 2, "element names taken from ElementTree in xml.build_tree")
+    for x in uses:
+        if handles:
+            ctx.proved("R12e", f.file, "build_tree", x, f"element .{x.attr}", "Clark-notation names are translated before they reach the tree")
+        else:
+            ctx.violation("R12e", f.file, "build_tree", x, f"element .{x.attr}",
+                          f"`{norm(x, 30)}` is stored as ElementTree reports it: for `<x:a xmlns:x=\"abc\"/>`, `<a xmlns=\"abc\"/>` or "
+                          f"`<a xml:lang=\"en\">` that is `{{abc}}a` / `{{http://www.w3.org/XML/1998/namespace}}lang`, the xmlns declaration is "
+                          f"gone, and XMLFormatter writes the name back verbatim: the printed document is not well-formed XML")
+
+
+def r12f(ctx):
+    m = ctx.model
+    ctx.rule("R12f", "YAML keys are always loadable: the parser accepts a simple key (`key: value`) only up to 1024 characters on one "
+                     "line; longer keys need the explicit form `? key` / `: value` (which yaml.dump itself emits).  The pair formatter "
+                     "must choose between the two forms by looking at the key")
+    q = m.find_class("YAMLKeyValuePairFormatter")
+    f = m.method(q, "print_KeyValuePairNode") if q else None
+    if f is None:
+        ctx.inconclusive("R12f", "graphtage/yaml.py", "YAMLKeyValuePairFormatter.print_KeyValuePairNode", None, "yaml pair formatter", "not found")
+        return
+    explicit = [c for c in walk_no_nested(f.node) if isinstance(c, ast.Constant) and isinstance(c.value, str) and c.value.lstrip().startswith("?")]
+    sep = [c for c in walk_no_nested(f.node) if isinstance(c, ast.Call) and isinstance(c.func, ast.Attribute) and c.func.attr == "write"
+           and c.args and isinstance(c.args[0], ast.Constant) and c.args[0].value == ": "]
+    ctx.floor("R12f", len(sep), 1, "simple-key separators written by the YAML pair formatter")
+    for c in sep:
+        if explicit:
+            ctx.proved("R12f", f.file, f.short, c, "explicit key form", "long keys are written in the explicit `? key` form")
+        else:
+            ctx.violation("R12f", f.file, f.short, c, "explicit key form",
+                          "every pair is written as the simple key `key: value`, whatever the key: a key of more than 1024 characters "
+                          "(`? aaaa...` in the file, as yaml.dump writes it) is printed as a simple key, which the loader rejects with "
+                          "ScannerError: mapping values are not allowed in this context")
+
+
 def run(ctx):
+    r12f(ctx)
+    r12e(ctx)
     r12d(ctx)
     e9_json(ctx)
     r12c(ctx)
